@@ -212,6 +212,13 @@ func (p *Queue[T]) Send(ctx context.Context, item T) bool {
 
 	pos := p.head.Load()
 
+	// woken records that this call consumed the token of the full
+	// channel. The channel holds a single token, so several Recvs may
+	// free slots while only one parked sender is woken: whoever
+	// consumed the token passes it on when it leaves while a slot is
+	// still writable.
+	woken := false
+
 	for !p.done.Load() && ctx.Err() == nil {
 		cell := &p.data[p.mask(pos)]
 		seq := cell.Sequence.Load()
@@ -229,6 +236,15 @@ func (p *Queue[T]) Send(ctx context.Context, item T) bool {
 				select {
 				case p.empty <- struct{}{}:
 				default:
+				}
+				if woken && p.head.Load()-p.tail.Load() < int64(p.capacity) {
+					// Pass the token on to the next parked sender.
+					// The channel is open: done was false at the top
+					// of this iteration and the read lock is held.
+					select {
+					case p.full <- struct{}{}:
+					default:
+					}
 				}
 				return true
 			}
@@ -256,6 +272,7 @@ func (p *Queue[T]) Send(ctx context.Context, item T) bool {
 				verifhook.Yield("mpmc.send.beforePark")
 				select {
 				case <-p.full:
+					woken = true
 				case <-ctx.Done():
 				}
 			}
@@ -265,6 +282,16 @@ func (p *Queue[T]) Send(ctx context.Context, item T) bool {
 			// diff > 0: another sender claimed this position first.
 			// Re-read head and retry.
 			pos = p.head.Load()
+		}
+	}
+	if woken && !p.done.Load() {
+		// Cancelled after having been woken: the slot this call was
+		// woken for is still free, so hand the token to another
+		// parked sender. The done check under the read lock keeps
+		// this from sending on a closed channel.
+		select {
+		case p.full <- struct{}{}:
+		default:
 		}
 	}
 	return false
@@ -278,6 +305,12 @@ func (p *Queue[T]) Recv(ctx context.Context) (T, bool) {
 	defer p.mu.RUnlock()
 
 	pos := p.tail.Load()
+
+	// woken records that this call consumed the token of the empty
+	// channel; see Send. Several Sends may publish values while only
+	// one parked receiver is woken, so the receiver that consumed the
+	// token passes it on when more values are pending.
+	woken := false
 
 	for {
 		cell := &p.data[p.mask(pos)]
@@ -305,6 +338,16 @@ func (p *Queue[T]) Recv(ctx context.Context) (T, bool) {
 					case p.full <- struct{}{}:
 					default:
 					}
+					if woken && p.head.Load() != pos+1 {
+						// Pass the token on to the next parked
+						// receiver. Covered by the done guard above:
+						// after Close the channel is closed and every
+						// receiver wakes anyway.
+						select {
+						case p.empty <- struct{}{}:
+						default:
+						}
+					}
 				}
 				return value, true
 			}
@@ -319,6 +362,7 @@ func (p *Queue[T]) Recv(ctx context.Context) (T, bool) {
 			verifhook.Yield("mpmc.recv.beforePark")
 			select {
 			case <-p.empty:
+				woken = true
 			case <-ctx.Done():
 			}
 			p.mu.RLock()
